@@ -19,17 +19,9 @@ def allowlist : List (String × String) := [
   ("os.Stdin", "lib/base.loadChunk")     -- dofile()/loadfile() without a file name read the chunk from stdin
 ]
 
-/-- Recorded defects (known_findings.json, property C20): shared mutable state that IS observable from
-    another runtime or is a data race.  Listed here so that any OTHER pair breaks the theorem below. -/
-def recordedDefects : List (String × String) := [
-  ("lib/base.ipairsIterator", "lib/base.Load"),        -- SolemnlyDeclareCompliance on a package-level *GoFunction in every Load
-  ("lib/base.nextGoFunc", "lib/base.Load"),            -- idem
-  ("lib/base.gcRunning", "lib/base.collectgarbage"),   -- collectgarbage("stop") in one runtime is seen by "isrunning" in another
-  ("runtime/debug.SetGCPercent", "lib/base.collectgarbage"),
-  ("math/rand.globalRand", "lib/mathlib.random"),      -- one process-wide generator
-  ("math/rand.globalRand", "lib/mathlib.randomseed")
-]
-
+/-- Recorded defects (known_findings.json, property C20): none.  (Repaired: the process-wide math/rand source,
+    SolemnlyDeclareCompliance on package-level GoFunctions in base.Load, collectgarbage's gcRunning / SetGCPercent.) -/
+def recordedDefects : List (String × String) := []
 
 inductive Verdict where
   | allowed | recordedDefect | unlisted
